@@ -159,11 +159,14 @@ class DemeTree:
             deme.run_metaepoch(self)
 
     def run_sprout(self) -> None:
+        # Only the demes that take part in this round (active non-leaves when it begins) fall asleep or wake up;
+        # demes created by the round start awake.
+        round_participants = self.active_non_leaves
         deme_seeds = self._sprout_mechanism.get_seeds(self)
         self._do_sprout(deme_seeds)
 
         if "hibernation" in self.config.options and self.config.options["hibernation"]:
-            for _, deme in reversed(self.active_non_leaves):
+            for _, deme in reversed(round_participants):
                 if deme in deme_seeds:
                     if deme._hibernating:
                         self._logger.debug("Deme stopped hibernating", deme=deme.id)
